@@ -12,7 +12,7 @@ ASSUMPTIONS = [
 ]
 OUTSIDE = ["more than 3 tasks, permits > 2", "uvloop, trio"]
 MUST_REACH = ["contended", "cancelled-waiter", "wouldblock", "total-raised-with-waiters", "total-lowered-below-borrowed", "total-raised-after-lowered-below-borrowed", "scope-cancel-while-queued", "reacquire-rejected", "foreign-release-rejected",
-              "cleanup-acquire-while-cancelled"]
+              "cleanup-acquire-while-cancelled", "acquire-in-cancelled-scope"]
 
 
 def units(tier):
@@ -34,6 +34,8 @@ def units(tier):
         add(kind, "n=3 aaa cap=1 cancel=1 native", n=3, modes="aaa", cap=1, cancel=1, native=True, T=1)
         add(kind, "n=3 aan cap=1 cancel=0", n=3, modes="aan", cap=1, cancel=0, T=1)
         add(kind, "n=2 ca cleanup-acquire", n=2, modes="ca", cap=1, cancel=0)
+        add(kind, "n=2 pa acquire-in-cancelled-scope cap=1", n=2, modes="pa", cap=1)
+        add(kind, "n=2 pa acquire-in-cancelled-scope cap=2", n=2, modes="pa", cap=2)
     add("sem", "n=2 aa fast cancel=1 native", n=2, modes="aa", cap=1, cancel=1, native=True, fast=True)
     add("sem", "n=2 aa intruder", n=2, modes="aa", cap=1, intruder=True)
     add("lim", "n=2 aa intruder", n=2, modes="aa", cap=1, intruder=True)
